@@ -28,9 +28,9 @@ Lemma tr_xs_mgr_unlock tr0 tid name key s : tr_xs tr0 (v_trace s) → tr_xs tr0 
 Proof.
   intros. unfold mgr_unlock. repeat case_match; simpl; try done. apply tr_xs_hand_over. simpl. by apply tr_xs_cons.
 Qed.
-Lemma tr_xs_spawn_all tr0 (l : list (str * list clock)) s : tr_xs tr0 (v_trace s) →
-  tr_xs tr0 (v_trace (fold_left (λ s '(sid, _), spawn (SConnEnd sid) VDsFlag s) l s)).
-Proof. intros H. apply (fold_left_inv (λ s', tr_xs tr0 (v_trace s'))); [done|]. intros s' [sid ?] H' _. by rewrite spawn_v_trace. Qed.
+Lemma tr_xs_spawn_all tr0 (l : list str) s : tr_xs tr0 (v_trace s) →
+  tr_xs tr0 (v_trace (fold_left (λ s sid, vemit (SvConnEnd sid) (spawn (SConnEnd sid) VDsFlag s)) l s)).
+Proof. intros H. apply (fold_left_inv (λ s', tr_xs tr0 (v_trace s'))); [done|]. intros s' sid H' _. first [apply tr_ext_vemit|apply tr_xs_vemit]; [done|]. by rewrite spawn_v_trace. Qed.
 Lemma tr_xs_fire_due tr0 s : tr_xs tr0 (v_trace s) → tr_xs tr0 (v_trace (fire_due s)).
 Proof.
   intros H. unfold fire_due. apply (fold_left_inv (λ s', tr_xs tr0 (v_trace s'))); [done|].
@@ -51,8 +51,8 @@ Proof.
   rewrite forallb_forall in Hevs. apply elem_of_list_In, Hevs in Hin. by rewrite He in Hin.
 Qed.
 
-Lemma spawn_all_v_sess (l : list (str * list clock)) s : v_sess (fold_left (λ s '(sid, _), spawn (SConnEnd sid) VDsFlag s) l s) = v_sess s.
-Proof. apply (fold_left_inv (λ s', v_sess s' = v_sess s)); [done|]. intros s' [sid ?] H' _. by rewrite spawn_v_sess. Qed.
+Lemma spawn_all_v_sess (l : list str) s : v_sess (fold_left (λ s sid, vemit (SvConnEnd sid) (spawn (SConnEnd sid) VDsFlag s)) l s) = v_sess s.
+Proof. apply (fold_left_inv (λ s', v_sess s' = v_sess s)); [done|]. intros s' sid H' _. by rewrite vemit_v_sess, spawn_v_sess. Qed.
 Lemma fire_due_v_sess s : v_sess (fire_due s) = v_sess s.
 Proof.
   unfold fire_due. apply (fold_left_inv (λ s', v_sess s' = v_sess s)); [done|].
@@ -71,7 +71,8 @@ Definition sess_eff (cfg : svcfg) (s : svstate) (it : sitem) (s' : svstate) : Pr
         ((st_op t = SUnlock n k ∧ st_pc t = VSessRemove) ∨
          (∃ id tm, st_op t = SExpire id ∧ st_pc t = VCbSessRemove ∧ v_theap s !! id = Some tm ∧ tm_n tm = n ∧ tm_k tm = k)) ∧
         v_sess s' = (λ l, filter (λ c, is_hold n k c = false) l) <$> v_sess s ∧ tr_xs (v_trace s) (v_trace s'))
-  ∨ (∃ tid t sid l, it = VRun tid ∧ v_thr s !! tid = Some t ∧ st_op t = SConnEnd sid ∧ st_pc t = VDsDestroy ∧
+  ∨ (∃ tid t sid l, it = VRun tid ∧ v_thr s !! tid = Some t ∧ st_op t = SConnEnd sid ∧
+        (st_pc t = VDsDestroy ∨ (st_pc t = VDsNoClear ∧ l = [])) ∧
         v_sess s !! sid = Some l ∧ v_sess s' = delete sid (v_sess s) ∧ v_trace s' = SvSessDestroy tid sid :: v_trace s).
 
 Lemma sess_eff_same cfg s it s' : v_sess s' = v_sess s → tr_xs (v_trace s) (v_trace s') → sess_eff cfg s it s'.
@@ -114,14 +115,13 @@ Proof.
   - right; right; right; left. eexists tid, _, _, _. split_and!; [done|exact Ht|right; simpl; eauto 8| |].
     + autorewrite with svframe. by rewrite sess_remove_v_sess.
     + xs_tac.
+  (* DestroySessionIfEmpty: an empty session *)
+  - destruct (sess_destroy_some cfg tid sid s [] ltac:(done)) as (H1 & H2 & H3).
+    right; right; right; right. eexists tid, _, sid, []. split_and!; [done|exact Ht|done|right; done|done| |]; by autorewrite with svframe.
   (* DestroySession *)
   - destruct (v_sess s !! sid) as [l|] eqn:Hs.
     + destruct (sess_destroy_some cfg tid sid s l Hs) as (H1 & H2 & H3).
-      right; right; right; right. eexists tid, _, sid, l. split_and!; [done|exact Ht|done|done|done| |]; by autorewrite with svframe.
-    + rewrite (sess_destroy_none _ _ _ _ Hs). simpl. apply sess_eff_same; [by autorewrite with svframe|xs_tac].
-  - destruct (v_sess s !! sid) as [l|] eqn:Hs.
-    + destruct (sess_destroy_some cfg tid sid s l Hs) as (H1 & H2 & H3).
-      right; right; right; right. eexists tid, _, sid, l. split_and!; [done|exact Ht|done|done|done| |]; by autorewrite with svframe.
+      right; right; right; right. eexists tid, _, sid, l. split_and!; [done|exact Ht|done|left; done|done| |]; by autorewrite with svframe.
     + rewrite (sess_destroy_none _ _ _ _ Hs). simpl. apply sess_eff_same; [by autorewrite with svframe|xs_tac].
   (* network stop *)
   - apply sess_eff_same; [autorewrite with svframe; by rewrite spawn_all_v_sess|xs_tac].
@@ -141,8 +141,8 @@ Proof.
 Qed.
 
 (** ** the lock manager's shutdown flag is monotone *)
-Lemma spawn_all_v_mgrshut (l : list (str * list clock)) s : v_mgrshut (fold_left (λ s '(sid, _), spawn (SConnEnd sid) VDsFlag s) l s) = v_mgrshut s.
-Proof. apply (fold_left_inv (λ s', v_mgrshut s' = v_mgrshut s)); [done|]. intros s' [sid ?] H' _. by rewrite spawn_v_mgrshut. Qed.
+Lemma spawn_all_v_mgrshut (l : list str) s : v_mgrshut (fold_left (λ s sid, vemit (SvConnEnd sid) (spawn (SConnEnd sid) VDsFlag s)) l s) = v_mgrshut s.
+Proof. apply (fold_left_inv (λ s', v_mgrshut s' = v_mgrshut s)); [done|]. intros s' sid H' _. by rewrite vemit_v_mgrshut, spawn_v_mgrshut. Qed.
 Lemma fire_due_v_mgrshut s : v_mgrshut (fire_due s) = v_mgrshut s.
 Proof.
   unfold fire_due. apply (fold_left_inv (λ s', v_mgrshut s' = v_mgrshut s)); [done|].
@@ -220,8 +220,8 @@ Lemma tm_reset_heap tk d s x : heap_rel (v_theap s !! x) (v_theap (tm_reset tk d
 Proof.
   unfold tm_reset. repeat case_match; simpl; try apply heap_rel_refl. by eapply heap_rel_upd.
 Qed.
-Lemma spawn_all_v_theap (l : list (str * list clock)) s : v_theap (fold_left (λ s '(sid, _), spawn (SConnEnd sid) VDsFlag s) l s) = v_theap s.
-Proof. apply (fold_left_inv (λ s', v_theap s' = v_theap s)); [done|]. intros s' [sid ?] H' _. by rewrite spawn_v_theap. Qed.
+Lemma spawn_all_v_theap (l : list str) s : v_theap (fold_left (λ s sid, vemit (SvConnEnd sid) (spawn (SConnEnd sid) VDsFlag s)) l s) = v_theap s.
+Proof. apply (fold_left_inv (λ s', v_theap s' = v_theap s)); [done|]. intros s' sid H' _. by rewrite vemit_v_theap, spawn_v_theap. Qed.
 Definition heap_same (o o' : option stimer) : Prop :=
   match o, o' with
   | Some tm, Some tm' => tm_n tm' = tm_n tm ∧ tm_k tm' = tm_k tm ∧ tm_s tm' = tm_s tm
